@@ -54,6 +54,10 @@ FUNCS = {
                       defined_in='C10Surf.lean', targets=['sum_rect', 'csum_rect', 'haar_x', 'haar_y']),
     'flat_to_pos': dict(tie=T + 'FlatToPos', theorems=['Mahotas.cscalar_flat_to_pos_eq_model'],
                         words=['flatToPos'], defined_in='C08.lean', targets=['flat_to_pos']),
+    'find2d_marks': dict(tie=T + 'Find2d', theorems=['Mahotas.cscalar_find2d_marks_eq_model'],
+                         words=['findMarks', 'matchesAt'], defined_in='C07.lean', targets=['find2d_marks']),
+    'find2d_accesses': dict(tie=T + 'Find2dAcc', theorems=['Mahotas.cscalar_find2d_accesses_eq_model'],
+                            words=['find2dAccesses'], defined_in='C10.lean', targets=['find2d_accesses']),
     'lbp_map': dict(tie=T + 'Lbp', theorems=['Mahotas.cscalar_roll_right_eq_model', 'Mahotas.cscalar_lbp_map_eq_model'],
                     words=['rollRight32', 'lbpMap32', 'lbpMapLoop'], defined_in='C10Misc.lean', targets=['roll_right', 'lbp_map']),
 }
@@ -201,6 +205,23 @@ def _unit(srcs: dict) -> str:
         s.append('extern "C" unsigned long cs_roll_right(unsigned long v, long points) { return roll_right((npy_uint32)v, (int)points); }')
         if 'lbp_map' in have:
             s.append('extern "C" unsigned long cs_lbp_map(unsigned long v, long points) { return map((npy_uint32)v, (int)points); }')
+    if 'find2d_marks' in have or 'find2d_accesses' in have:
+        # the whole kernel, on arrays whose `at(y, x)` logs (array id, y, x) and stays inside the buffer
+        s.append('static long* f2_log; static long f2_n, f2_cap;')
+        s.append('namespace numpy { template <typename T> struct f2_array { T* p; npy_intp d0, d1; int tag; '
+                 'npy_intp dim(int k) const { return k == 0 ? d0 : d1; } bool is_carray() const { return true; } '
+                 'T* data() const { return p; } '
+                 'T& at(npy_intp y, npy_intp x) const { static T dummy; if (f2_n + 3 <= f2_cap) { f2_log[f2_n] = tag; f2_log[f2_n + 1] = y; f2_log[f2_n + 2] = x; } '
+                 'f2_n += 3; dummy = T(); return (y >= 0 && y < d0 && x >= 0 && x < d1) ? p[y * d1 + x] : dummy; } }; }')
+        s.append('#define aligned_array f2_array')
+        s.append('namespace {')
+        s.append(srcs['find2d_marks' if 'find2d_marks' in have else 'find2d_accesses']['text'])
+        s.append('}')
+        s.append('#undef aligned_array')
+        s.append('extern "C" long cs_find2d(const long* d, long* a, long* t, long* marks, long* log, long cap) { '
+                 'numpy::f2_array<long> A; A.p = a; A.d0 = d[0]; A.d1 = d[1]; A.tag = 0; numpy::f2_array<long> Tg; Tg.p = t; Tg.d0 = d[2]; Tg.d1 = d[3]; Tg.tag = 1; '
+                 'long n = d[0] * d[1]; bool* ob = new bool[n > 0 ? n : 1]; numpy::f2_array<bool> O; O.p = ob; O.d0 = d[0]; O.d1 = d[1]; O.tag = 2; '
+                 'f2_log = log; f2_n = 0; f2_cap = cap; find2d<long>(A, Tg, O); for (long i = 0; i < n; ++i) marks[i] = ob[i] ? 1 : 0; delete[] ob; return f2_n; }')
     if 'at_flat' in have or 'pos_to_flat' in have or 'flat_to_pos' in have:
         s.append('template <typename BaseType> struct cs_array { bool is_carray_; BaseType* data_; int nd; npy_intp dims_[32]; npy_intp strides_[32];')
         s.append('  typedef numpy::position position;')
@@ -229,7 +250,7 @@ def _unit(srcs: dict) -> str:
 # a finding: translation and tie are checked independently of it, the differential only validates the translator
 GROUPS = [['fix_offset'], ['t_abs'], ['subm_elem'], ['margin_of'], ['erode_sub', 'erode_sub_bool'], ['dilate_add', 'dilate_add_bool'],
           ['isLeft'], ['forward_cmp'], ['reverse_cmp'], ['at_flat'], ['pos_to_flat'], ['flat_to_pos'],
-          ['sum_rect', 'csum_rect', 'haar_x', 'haar_y'], ['roll_right', 'lbp_map']]
+          ['sum_rect', 'csum_rect', 'haar_x', 'haar_y'], ['roll_right', 'lbp_map'], ['find2d_marks', 'find2d_accesses']]
 _LIB = {}
 _SRCS = None
 
@@ -336,6 +357,22 @@ def _real_rows(case):
         f = getattr(lib, 'cs_' + fn)
         f.restype, f.argtypes = ctypes.c_ulong, [ctypes.c_ulong, ctypes.c_long]
         out = [str(f(v, pts)) for v, pts in case['rows']]
+    elif fn in ('find2d_marks', 'find2d_accesses'):
+        f = lib.cs_find2d
+        f.restype = ctypes.c_long
+        for dims, tdims, adata, tdata in case['rows']:
+            n, nt = dims[0] * dims[1], tdims[0] * tdims[1]
+            cap = 3 * (4 * n * max(1, nt) + 2 * n + 16)
+            D = (ctypes.c_long * 4)(*(list(dims) + list(tdims)))
+            A = (ctypes.c_long * max(1, n))(*adata)
+            Tg = (ctypes.c_long * max(1, nt))(*tdata)
+            M = (ctypes.c_long * max(1, n))()
+            L = (ctypes.c_long * cap)()
+            k = f(D, A, Tg, M, L, cap)
+            if fn == 'find2d_marks':
+                out.append(';'.join(f'{i // dims[1]},{i % dims[1]}' for i in range(n) if M[i]))
+            else:
+                out.append(';'.join(f'{L[i]},{L[i + 1]},{L[i + 2]}' for i in range(0, min(k, cap), 3)) + ('' if k <= cap else ';overflow'))
     elif fn == 'flat_to_pos':
         f = lib.cs_flat_to_pos
         f.restype = None
@@ -366,6 +403,10 @@ def _lines(case):
         return [f'{pre} l0={core.fmt_ints(d)} l1={core.fmt_ints(p)}' for d, p in case['rows']]
     if fn in ('sum_rect', 'csum_rect', 'haar_x', 'haar_y', 'flat_to_pos'):
         return [f'{pre} a={core.fmt_ints(a)} l0={core.fmt_ints(d)}' for a, d in case['rows']]
+    if fn == 'find2d_marks':
+        return [f'{pre} l0={core.fmt_ints(d)} l1={core.fmt_ints(td)} l2={core.fmt_ints(a)} l3={core.fmt_ints(t)}' for d, td, a, t in case['rows']]
+    if fn == 'find2d_accesses':
+        return [f'{pre} l0={core.fmt_ints(d)} l1={core.fmt_ints(td)}' for d, td, a, t in case['rows']]
     if fn == 'at_flat':
         return [f'{pre} a={core.fmt_ints(a)} l0={core.fmt_ints(d)} l1={core.fmt_ints(st)}' for a, d, st in case['rows']]
     return [f'{pre} a={core.fmt_ints(r)}' for r in case['rows']]
@@ -558,7 +599,34 @@ def _cases_flat_to_pos(rng, tier):
     return [dict(fn='flat_to_pos', rows=ch, src='random') for ch in _chunks(rows, 1000)]
 
 
+def _cases_find2d(fn, rng, tier):
+    """images up to 6 x 6 over a two-letter alphabet with planted copies of the template; templates with 0 … N+2 rows / columns
+    (empty, fitting exactly, larger than the image); `find2d_accesses` runs on constant data (no comparison ever fails: the
+    compiled kernel then performs the longest trace, the one the generated definition lists)"""
+    rows = []
+    for _ in range(dict(quick=400, thorough=8000, search=3000)[tier]):
+        n0, n1 = rng.randint(0, 6), rng.randint(0, 6)
+        t0 = rng.choice([0, 1, 1, 2, 2, 3, n0, n0 + 1, n0 + 2])
+        t1 = rng.choice([0, 1, 1, 2, 2, 3, n1, n1 + 1, n1 + 2])
+        if fn == 'find2d_accesses':
+            rows.append([[n0, n1], [t0, t1], [0] * (n0 * n1), [0] * (t0 * t1)])
+            continue
+        t = [rng.randint(0, 1) for _ in range(t0 * t1)]
+        a = [rng.randint(0, 1) if rng.random() < 0.6 else 0 for _ in range(n0 * n1)]
+        for _ in range(rng.randint(0, 3)):                  # plant copies (possibly overlapping / cut by the border)
+            if n0 and n1:
+                y, x = rng.randint(0, n0 - 1), rng.randint(0, n1 - 1)
+                for sy in range(t0):
+                    for sx in range(t1):
+                        if y + sy < n0 and x + sx < n1:
+                            a[(y + sy) * n1 + x + sx] = t[sy * t1 + sx]
+        rows.append([[n0, n1], [t0, t1], a, t])
+    return [dict(fn=fn, rows=ch, src='random') for ch in _chunks(rows, 400)]
+
+
 GENERATORS = {
+    'find2d_marks': lambda rng, tier: _cases_find2d('find2d_marks', rng, tier),
+    'find2d_accesses': lambda rng, tier: _cases_find2d('find2d_accesses', rng, tier),
     'flat_to_pos': _cases_flat_to_pos,
     'lbp_map': _cases_lbp,
     'surf_rect': _cases_surf,
